@@ -9,6 +9,7 @@ One output line per input line:  M<TAB>S<TAB>G<TAB>T
 -/
 import DtailModel.Model.Hex
 import DtailModel.Model.Wire
+import DtailModel.Model.Fast
 import DtailModel.Model.Grep
 import DtailModel.Model.Discovery
 import DtailModel.Model.Color
@@ -21,6 +22,7 @@ import DtailModel.Model.Aggregate
 import DtailModel.Model.Outfile
 import DtailModel.Model.Limiter
 import DtailModel.Model.Conn
+import DtailModel.Model.Multi
 open Dtail
 
 structure Res where
@@ -35,13 +37,12 @@ def bad : Res := { m := "bad-op" }
 
 def joinWith (sep : String) (l : List String) : String := sep.intercalate l
 
-def c01sig (m bufLen : Nat) (bs : Bytes) : String :=
+def c01sig (m : Nat) (bs : Bytes) : String :=
   if sigDelim bs then "delim-byte"
-  else if sigDot m bs then "dot-line"
-  else if sigLong m bufLen bs then "long-line" else "-"
+  else if sigDot m bs then "dot-line" else "-"
 
 def c01tags (m : Nat) (bs : Bytes) : String :=
-  let ls := readLines m bs
+  let ls := readLinesF m bs
   let split := ls.any (fun l => l.length = m + 1 ∧ l.getLast? = some NL)
   let noFinalNL := bs.getLast? ≠ some NL ∧ bs ≠ []
   let empty := ls.any (fun l => l = [NL])
@@ -51,7 +52,7 @@ def c01tags (m : Nat) (bs : Bytes) : String :=
 def opC01Reader : List String → Res
   | [m, c] => match m.toNat?, unhex c with
     | some m, some bs =>
-      let ls := readLines m bs
+      let ls := readLinesF m bs
       { m := joinWith "," (ls.zipIdx.map (fun (l, i) => s!"{i+1}:{hexOf l}")),
         s := hexOf (insertNL m 0 bs), t := c01tags m bs }
     | _, _ => bad
@@ -61,18 +62,20 @@ def opC01Pipe : List String → Res
   | [plain, m, bufLen, _chunk, c] => match m.toNat?, bufLen.toNat?, unhex c with
     | some m, some bufLen, some bs =>
       let plain := plain = "1"
-      let frames := (catLines (str "pipe.txt") (readLines m bs)).map (frameLine plain (str "vhost") bufLen)
-      let out := printed (clientFeed ⟨[], []⟩ frames.flatten).msgs
-      { m := joinWith "," (frames.map hexOf) ++ ";" ++ hexOf out,
-        g := if plain then c01sig m bufLen bs else "-", t := c01tags m bs }
+      let frames := (catLines (str "pipe.txt") (readLinesF m bs)).map (frameOf plain (str "vhost"))
+      -- each Read(p) hands out at most len(p) bytes of the pending frame
+      let pieces := frames.flatMap (fun f => readPieces bufLen f.length f)
+      let out := printed (clientMsgsF frames.flatten)
+      { m := joinWith "," (pieces.map hexOf) ++ ";" ++ hexOf out,
+        g := if plain then c01sig m bs else "-", t := c01tags m bs }
     | _, _, _ => bad
   | _ => bad
 
 def opC01E2E : List String → Res
   | [m, c] => match m.toNat?, unhex c with
     | some m, some bs =>
-      { m := "0;" ++ hexOf (dcatPlain m 32768 bs), s := "0;" ++ hexOf (insertNL m 0 bs),
-        g := c01sig m 32768 bs, t := c01tags m bs }
+      { m := "0;" ++ hexOf (printed (clientMsgsF ((catLines [] (readLinesF m bs)).map (frameOf true [])).flatten)), s := "0;" ++ hexOf (insertNL m 0 bs),
+        g := c01sig m bs, t := c01tags m bs }
     | _, _ => bad
   | _ => bad
 
@@ -98,7 +101,7 @@ def c03common (a : List String) : Option (Nat × Nat × Nat × Nat × RFlag × (
   | [m, B, A, M, inv, pat, bNL, bNo, c] => do
     let m ← m.toNat?; let B ← B.toNat?; let A ← A.toNat?; let M ← M.toNat?
     let pat ← unhex pat; let bs ← unhex c
-    let raw := readLines m bs
+    let raw := readLinesF m bs
     let bNL := bitsOf bNL; let bNo := bitsOf bNo
     if bNL.length ≠ raw.length ∨ bNo.length ≠ raw.length then none
     else some (m, B, A, M, clientFlag pat (inv = "1"), engineOf raw bNL bNo, raw, bNL, bNo)
@@ -122,8 +125,8 @@ def opC03E2E (a : List String) : Res :=
     let out := dgrepLines B A M f eng raw
     let lsSpec := raw.map (fun l => (matchFlag f (eng (chomp l)), l))
     let spec := grepSpec B A M (blocks lsSpec).1 (blocks lsSpec).2
-    let frames := out.map (fun (n, l) => frameLine true [] 32768 ⟨l, n, 100, []⟩)
-    { m := "0;" ++ hexOf (printed (clientFeed ⟨[], []⟩ frames.flatten).msgs),
+    let frames := out.map (fun (n, l) => frameOf true [] ⟨l, n, 100, []⟩)
+    { m := "0;" ++ hexOf (printed (clientMsgsF frames.flatten)),
       s := "0;" ++ hexOf spec.flatten,
       g := if f != .noop ∧ sigNlSensitive eng raw then "nl-sensitive" else "-",
       t := c03tags B A M lsSpec out.length }
@@ -812,6 +815,30 @@ def opC14Script : List String → Res
   | _ => bad
 where max' (a b : Int) : Int := if a < b then b else a
 
+/-! C07 -/
+
+def padTo (n : Nat) (l : Bytes) : Bytes := l ++ List.replicate (n - l.length) 120
+
+def opC07Multi : List String → Res
+  | [ns, nf, nl, ll, mll] => match ns.toNat?, nf.toNat?, nl.toNat?, ll.toNat?, mll.toNat? with
+    | some ns, some nf, some nl, some ll, some mll =>
+      let sources := (List.range ns).flatMap fun i => (List.range nf).map fun f => (i, f)
+      let render (i f : Nat) : String :=
+        let name := str s!"f{f}.log"
+        let content : Bytes := (List.range nl).flatMap fun k => padTo ll (str s!"src=f{f}.log n={k + 1} ") ++ [NL]
+        let lines := catLines name (readLinesF mll content)
+        -- each record's text is the line without its newline (the client prints line by line)
+        let recs := lines.map fun l => s!"{l.count}:{l.perc}:{hexOf (chomp l.content)}"
+        s!"host{i}|f{f}.log=" ++ joinWith "," recs
+      let keyed := sources.map fun (i, f) => (s!"host{i}|f{f}.log", render i f)
+      let sorted := (keyed.toArray.qsort (fun a b => a.1 < b.1)).toList
+      let r := if sorted.isEmpty ∨ nl = 0 then "0;nothing" else "0;" ++ joinWith " " (sorted.map (·.2))
+      { m := r, s := r,
+        t := joinWith "," ((if ns > 1 then ["multi-server"] else []) ++ (if nf > 1 then ["multi-file"] else [])
+          ++ (if ll > mll then ["split"] else []) ++ (if ll > 4096 then ["long"] else [])) }
+    | _, _, _, _, _ => bad
+  | _ => bad
+
 def dispatch (line : String) : Res :=
   match (line.splitOn " ").filter (· ≠ "") with
   | "c01.reader" :: a => opC01Reader a
@@ -820,6 +847,7 @@ def dispatch (line : String) : Res :=
   | "c03.grep" :: a => opC03Grep a
   | "c03.e2e" :: a => opC03E2E a
   | "c05.agg" :: a => opC05Agg a
+  | "c07.multi" :: a => opC07Multi a
   | "c08.perm" :: a => opC08Perm a
   | "c08.cat" :: a => opC08Cat a
   | "c09.keys" :: a => opC09Keys a
